@@ -53,6 +53,19 @@ struct MemReader : public FileReader {
 
 static string g_tmp;
 
+// what every tool and the builder do with a loaded manifest: expand the bindings of each statement
+static void EvaluateAll(State& st) {
+  for (Edge* e : st.edges_) {
+    e->EvaluateCommand(true);
+    e->GetBinding("description");
+    e->GetBinding("deps");
+    e->GetUnescapedDepfile();
+    e->GetUnescapedDyndep();
+    e->GetUnescapedRspfile();
+    e->GetBindingBool("restat");
+  }
+}
+
 static void RunOne(const string& mode, const string& in) {
   if (mode == "manifest") {
     State st;
@@ -61,7 +74,19 @@ static void RunOne(const string& mode, const string& in) {
     r.files["inc"] = "x = 1\nrule ri\n  command = c\n";
     ManifestParser p(&st, &r);
     string err;
-    p.Load("build.ninja", &err);
+    if (p.Load("build.ninja", &err)) EvaluateAll(st);
+  } else if (mode == "rulevars") {
+    // the token string fills the values of three rule bindings, separated by the token "|"
+    vector<string> part(1);
+    for (char ch : in) { if (ch == '|') part.push_back(""); else part.back().push_back(ch); }
+    part.resize(3);
+    State st;
+    MemReader r;
+    r.files["build.ninja"] = "x = 1\nrule r\n  command = " + part[0] + "\n  rspfile = f\n  rspfile_content = " + part[1] + "\n  description = " + part[2] +
+                             "\nbuild a: r b\n  y = 2\n";
+    ManifestParser p(&st, &r);
+    string err;
+    if (p.Load("build.ninja", &err)) EvaluateAll(st);
   } else if (mode == "dyndep") {
     State st;
     MemReader r0;
